@@ -2,6 +2,7 @@ package props
 
 import (
 	"fmt"
+	"strings"
 	"sync"
 	"sync/atomic"
 	"time"
@@ -16,6 +17,17 @@ import (
 // the interleaving in which state shared between calls, written before `stage` and read after it, is seen by the wrong call.
 // Returns, per call, the report or "error: ..." / "panic: ...".
 func parkedThenSerial(stage events.EventType, wait time.Duration, order []int, calls []func(ch *chan events.Event) (string, error)) []string {
+	start := make([]int, len(calls))
+	for i := range start {
+		start[i] = i
+	}
+	return startedThenSerial(stage, wait, start, order, calls)
+}
+
+// startedThenSerial: as parkedThenSerial, and the calls are STARTED one after the other in the order `start`, each only when
+// the one before it is parked at the stage (or has ended): the order in which the calls pass the code before the stage is
+// fixed as well as the order in which they pass the code after it.
+func startedThenSerial(stage events.EventType, wait time.Duration, start []int, order []int, calls []func(ch *chan events.Event) (string, error)) []string {
 	n := len(calls)
 	outs := make([]string, n)
 	var mu sync.Mutex
@@ -27,6 +39,9 @@ func parkedThenSerial(stage events.EventType, wait time.Duration, order []int, c
 	for i := 0; i < n; i++ {
 		release[i] = make(chan struct{})
 		done[i] = make(chan struct{})
+	}
+	deadline := time.After(wait * time.Duration(n))
+	for _, i := range start {
 		wg.Add(1)
 		go func(i int) {
 			defer wg.Done()
@@ -67,17 +82,10 @@ func parkedThenSerial(stage events.EventType, wait time.Duration, order []int, c
 			case <-time.After(wait):
 			}
 		}(i)
-	}
-	// wait until every call is parked at the stage, has ended, or the time is up
-	deadline := time.After(wait)
-	parked := 0
-collect:
-	for parked < n {
+		// wait until this call is parked at the stage, has ended, or the time is up
 		select {
 		case <-arrived:
-			parked++
 		case <-deadline:
-			break collect
 		}
 	}
 	for _, i := range order {
@@ -109,3 +117,70 @@ var stageStarts = []events.EventType{events.ProfileParsingStart, events.InputDat
 	events.RegoGenerationStart, events.RegoCompilationStart, events.OpaValidationStart, events.BuildReportStart}
 var stageDones = []events.EventType{events.ProfileParsingDone, events.InputDataParsingDone, events.InputDataNormalizationDone,
 	events.RegoGenerationDone, events.RegoCompilationDone, events.OpaValidationDone, events.BuildReportDone}
+
+// alignedCalls: n calls at once; the listener of every call holds the call's first event of type `stage` until all n calls
+// have reached it (or 10 s), then all go on together - the calls enter the code after `stage` at the same moment.
+func alignedCalls(stage events.EventType, n int, call func(w int, ch *chan events.Event) (string, error)) []string {
+	outs := make([]string, n)
+	bar := make(chan struct{})
+	var arrived int32
+	var awg sync.WaitGroup
+	for w := 0; w < n; w++ {
+		awg.Add(1)
+		go func(w int) {
+			defer awg.Done()
+			ch := make(chan events.Event)
+			fin := make(chan struct{})
+			go func() {
+				defer close(fin)
+				held := false
+				for ev := range ch {
+					if ev.EventType == stage && !held {
+						held = true
+						if atomic.AddInt32(&arrived, 1) == int32(n) {
+							close(bar)
+						}
+						select {
+						case <-bar:
+						case <-time.After(10 * time.Second):
+						}
+					}
+				}
+			}()
+			o, err := func() (o string, err error) {
+				defer func() {
+					if r := recover(); r != nil {
+						err = fmt.Errorf("panic: %v", r)
+					}
+				}()
+				return call(w, &ch)
+			}()
+			if err != nil {
+				o = "error: " + err.Error()
+			}
+			outs[w] = o
+			select {
+			case <-fin:
+			case <-time.After(5 * time.Second):
+			}
+		}(w)
+	}
+	awg.Wait()
+	return outs
+}
+
+// coldProfile: one validation with `k` sibling constraints written in DESCENDING order of their printed form (whatever
+// order the translator prefers, it is not this one), and two or-operands in descending order; `tag` goes into a comment, so
+// that the text is new to the process while the profile is the same.
+func coldProfile(k int, tag string) string {
+	var b strings.Builder
+	b.WriteString(ProfileHeader + "# " + tag + "\nviolation:\n  - wide\nwarning:\n  - either\nvalidations:\n  wide:\n    targetClass: ex.Thing\n    message: wide\n    propertyConstraints:\n")
+	for i := k - 1; i >= 0; i-- {
+		fmt.Fprintf(&b, "      ex.p%02d:\n        minCount: 1\n", i)
+	}
+	b.WriteString("  either:\n    targetClass: ex.Thing\n    message: either\n    or:\n")
+	for i := 9; i >= 0; i-- {
+		fmt.Fprintf(&b, "      - propertyConstraints:\n          ex.q%d:\n            minCount: 1\n", i)
+	}
+	return b.String()
+}
